@@ -21,7 +21,7 @@ type ioObj interface {
 var c18Durations = []time.Duration{1, time.Microsecond, time.Millisecond, 250 * time.Millisecond, time.Second, time.Hour}
 
 // timedLeaveEnds: the event injected during the call (the peer leaving) is a
-// legitimate end of the call (set for REP/RESPONDENT replies).
+// legitimate end of the call (set for REP/RESPONDENT replies, cooked and raw).
 var timedLeaveEnds bool
 
 // timedCall issues fn with deadline d already configured and judges its
@@ -297,11 +297,46 @@ func c18Run(w *W) {
 			}
 		}
 		blockedOnce := false
+		// raw patterns whose Send wants a protocol header from the application
+		// (a message without one is dropped on the spot, which would decide
+		// nothing): the header an application would supply, for XREP /
+		// XRESPONDENT the one a request of the connected peer arrived with
+		send := func(body []byte) error { return obj.Send(body) }
+		if isRaw(kind) && rawHeader(kind, 1, 1) != nil {
+			var pipeID uint32 = 1
+			if (kind == "xrep" || kind == "xrespondent") && peer != nil && peer.Open() {
+				peer.Inject(inbound(kind, 5, "request"))
+				w.Settle()
+				rc := w.Do("RecvMsg(request)", func() (interface{}, error) { return s.RecvMsg() })
+				w.Settle()
+				if !rc.Returned() || rc.Err != nil {
+					return
+				}
+				rm := rc.Val.(*mangos.Message)
+				if len(rm.Header) < 4 {
+					w.Failf("C05/raw-header", "%s: a request arrived with a %d-byte header", kind, len(rm.Header))
+					return
+				}
+				pipeID = uint32(rm.Header[0])<<24 | uint32(rm.Header[1])<<16 | uint32(rm.Header[2])<<8 | uint32(rm.Header[3])
+				rm.Free()
+				w.Probe("raw-reply-addressed-to-connected-pipe")
+			}
+			nsent := uint32(0)
+			send = func(body []byte) error {
+				nsent++
+				m := mangos.NewMessage(len(body))
+				m.Header = append(m.Header, rawHeader(kind, pipeID, 100+nsent)...)
+				m.Body = append(m.Body, body...)
+				err := s.SendMsg(m)
+				if err != nil {
+					m.Free()
+				}
+				return err
+			}
+			w.Probe("raw-send-with-header")
+		}
 		for i := 0; i < qlen+5 && !w.Failed(); i++ {
 			body := []byte(fmt.Sprintf("m%d", i))
-			if kind == "xrep" || kind == "xrespondent" || kind == "xreq" || kind == "xsurveyor" || kind == "xpair1" || kind == "xstar" {
-				// raw senders supply the header; send via SendMsg
-			}
 			if i > 0 && (kind == "rep" || kind == "respondent") && peer != nil && peer.Open() {
 				// one reply per request: take another request first, so that the
 				// replies pile up behind the stalled requester's full queue
@@ -314,7 +349,7 @@ func c18Run(w *W) {
 				}
 			}
 			w.Op("%s Send %d deadline %v besteffort=%v", kind, i, d, mode == "best-effort")
-			timedLeaveEnds = kind == "rep" || kind == "respondent"
+			timedLeaveEnds = kind == "rep" || kind == "respondent" || kind == "xrep" || kind == "xrespondent"
 			during := leave
 			if kind == "req" && d >= time.Millisecond && mode == "send-deadline" && w.Choose(simrt.SProg, 2) == 0 {
 				// while the Send waits, a Recv on the same context (shorter
@@ -332,7 +367,7 @@ func c18Run(w *W) {
 					}
 				}
 			}
-			c, blocked := timedCall(w, fmt.Sprintf("%s.Send#%d", kind, i), d, wantTimeout, func() (interface{}, error) { return nil, obj.Send(body) }, during)
+			c, blocked := timedCall(w, fmt.Sprintf("%s.Send#%d", kind, i), d, wantTimeout, func() (interface{}, error) { return nil, send(body) }, during)
 			timedLeaveEnds = false
 			if w.Failed() {
 				return
@@ -380,12 +415,16 @@ func c18Run(w *W) {
 					burstOn = s2
 				}
 			}
+			burstSend := func(b []byte) error { return burstOn.Send(b) }
+			if burstOn == obj {
+				burstSend = send
+			}
 			var calls []*Call
 			for t := 0; t < ntask; t++ {
 				t := t
 				calls = append(calls, w.Do(fmt.Sprintf("%s.Send(best effort, task %d)", kind, t), func() (interface{}, error) {
 					for j := 0; j < 3; j++ {
-						if err := burstOn.Send([]byte(fmt.Sprintf("burst-%d-%d", t, j))); err != nil && err != mangos.ErrProtoState {
+						if err := burstSend([]byte(fmt.Sprintf("burst-%d-%d", t, j))); err != nil && err != mangos.ErrProtoState {
 							return j, err
 						}
 					}
